@@ -105,11 +105,21 @@ MAXN = 4000   # bound on every walk (cycles)
 
 
 class Session:
-    def __init__(self, spec, rooted, ntaxa):
+    def __init__(self, spec, rooted, ntaxa, labels=None, cs=None):
+        """labels/cs: a label pool for the namespace (labels[i] is the label of taxon i; labels may collide,
+        exactly or under case folding) and the namespace's is_case_sensitive flag; default t0.. in a default
+        (case-insensitive) namespace"""
         import dendropy
         _patch_node_init()
         _STAMP["on"] = False
-        self.ns, self.taxa = trees.make_namespace(ntaxa)
+        if labels is None:
+            self.ns, self.taxa = trees.make_namespace(ntaxa)
+            self.labels, self.cs = default_labels(ntaxa), False
+        else:
+            assert len(labels) == ntaxa
+            self.ns = dendropy.TaxonNamespace(is_case_sensitive=bool(cs))
+            self.taxa = [self.ns.new_taxon(label=l) for l in labels]
+            self.labels, self.cs = list(labels), bool(cs)
         self.taxon_index = {id(t): i for i, t in enumerate(self.taxa)}
         self.tree, by_id = trees.build_dendropy(spec, self.taxa, is_rooted=rooted, namespace=self.ns)
         self.reg = dict(by_id)
@@ -222,6 +232,32 @@ class Session:
                          is_apply_filter_to_leaf_nodes=op[4], is_apply_filter_to_internal_nodes=op[5])
         elif k == "RetainTaxa":
             t.retain_taxa([self.taxa[i] for i in op[1]], update_bipartitions=op[2], suppress_unifurcations=op[3])
+        elif k == "PruneTaxaLabels":
+            t.prune_taxa_with_labels(list(op[1]), update_bipartitions=op[2], suppress_unifurcations=op[3],
+                                     is_apply_filter_to_leaf_nodes=op[4], is_apply_filter_to_internal_nodes=op[5])
+        elif k == "RetainTaxaLabels":
+            t.retain_taxa_with_labels(list(op[1]), update_bipartitions=op[2], suppress_unifurcations=op[3])
+        elif k in ("ExtractWithLabels", "ExtractWithoutLabels"):
+            # returns a NEW tree: its nodes are not nodes of the session's heap (no creation-order stamps)
+            on = _STAMP["on"]
+            _STAMP["on"] = False
+            try:
+                fn = t.extract_tree_with_taxa_labels if k == "ExtractWithLabels" else t.extract_tree_without_taxa_labels
+                other = fn(list(op[1]), suppress_unifurcations=op[2])
+                ex = {"same_namespace": other.taxon_namespace is t.taxon_namespace, "is_self": other is t}
+                if other.seed_node is None:
+                    ex["tree"], ex["problems"] = None, []
+                else:
+                    sp, pr = trees.dump_dendropy(other, self.taxon_index, alloc=trees.IdAlloc(2 * 10 ** 6),
+                                                 label_index=self.label_index, max_nodes=MAXN)
+                    ex["problems"] = pr
+                    ex["leaf_taxa"] = leaf_taxa(sp)
+                    ex["foreign_taxa"] = sum(1 for n in trees.preorder(sp) if n["taxon"] == -1)
+                    ex["internal_taxon"] = internal_with_taxon(sp)
+                    ex["n"] = len(trees.preorder(sp))
+                aux["extract"] = ex
+            finally:
+                _STAMP["on"] = on
         elif k == "Ladderize":
             t.ladderize(ascending=op[1])
         elif k == "Reorder":
@@ -327,6 +363,87 @@ class Session:
 
 
 # --------------------------------------------------------------------------------------------
+# label pools (namespaces in which several taxa answer to one label) and the taxa a label query designates
+# --------------------------------------------------------------------------------------------
+
+LABEL_OPS = ("PruneTaxaLabels", "RetainTaxaLabels", "ExtractWithLabels", "ExtractWithoutLabels")
+
+
+def default_labels(ntaxa):
+    return ["t%d" % i for i in range(ntaxa)]
+
+
+def case_labels(case):
+    """(labels, is_case_sensitive) of the namespace of a case"""
+    if case.get("labels") is None:
+        return default_labels(case["ntaxa"]), False
+    return case["labels"], bool(case.get("cs"))
+
+
+def designated(labels, cs, query):
+    """taxon indices a list of query labels designates: EVERY taxon of the namespace whose label equals one
+    of the query labels under the namespace's own rule (exact when case sensitive, after lower-casing
+    otherwise).  Deliberately naive and independent of TaxonNamespace.get_taxa."""
+    out = []
+    for i, l in enumerate(labels):
+        for q in query:
+            if (l == q) if cs else (l.lower() == q.lower()):
+                out.append(i)
+                break
+    return out
+
+
+def equiv_op(op, labels, cs):
+    """the taxon-object form of a label-based op (what the label methods are documented to delegate to)"""
+    k = op[0]
+    if k == "PruneTaxaLabels":
+        return ["PruneTaxa", designated(labels, cs, op[1])] + list(op[2:])
+    if k == "RetainTaxaLabels":
+        return ["RetainTaxa", designated(labels, cs, op[1])] + list(op[2:])
+    return op
+
+
+def gen_label_pool(rng, ntaxa):
+    """labels for ntaxa taxa with collisions: exact duplicates and labels differing only in case"""
+    base = ["a", "b", "c", "d", "e", "f", "g", "h", "k", "m", "n", "p", "q", "r", "s", "u", "v", "w", "x", "y", "z"]
+    mode = rng.choice(["case", "dup", "both", "unique-mixed-case"])
+    labels = []
+    for i in range(ntaxa):
+        r = rng.random()
+        if labels and r < 0.35 and mode != "unique-mixed-case":
+            src = rng.choice(labels)
+            if mode == "dup":
+                labels.append(src)
+            elif mode == "case":
+                labels.append(src.swapcase())
+            else:
+                labels.append(rng.choice([src, src.swapcase(), src.upper()]))
+        else:
+            fresh = [b for b in base if all(b != l.lower() for l in labels)]
+            l = rng.choice(fresh) if fresh else "t%d" % i
+            labels.append(l.upper() if rng.random() < 0.3 else l)
+    return labels, rng.random() < (0.25 if mode != "dup" else 0.5)
+
+
+def gen_label_query(rng, sess, spec):
+    """query labels: mostly labels of taxa in the tree (in either case), sometimes unknown ones"""
+    present = sorted(set(n["taxon"] for n in trees.preorder(spec) if n["taxon"] is not None and n["taxon"] >= 0))
+    pool = [sess.labels[i] for i in (present or range(len(sess.labels)))]
+    q = []
+    for l in pool:
+        if rng.random() < 0.4:
+            q.append(rng.choice([l, l, l.swapcase(), l.lower()]))
+    if pool and not q and rng.random() < 0.8:
+        q.append(rng.choice(pool))
+    if rng.random() < 0.15:
+        q.append("nosuchlabel")
+    if q and rng.random() < 0.1:
+        q.append(q[0])
+    rng.shuffle(q)
+    return q
+
+
+# --------------------------------------------------------------------------------------------
 # spec-tree helpers
 # --------------------------------------------------------------------------------------------
 
@@ -389,6 +506,15 @@ KINDS = [
     ("Ladderize", 3), ("Reorder", 2), ("RandomlyRotate", 2), ("RandomlyReorient", 3), ("ShuffleTaxa", 2),
     ("RemoveChild", 6), ("NewChild", 5), ("InsertNewChild", 3), ("AddChild", 4), ("InsertChild", 4),
     ("SetChildNodes", 2), ("SetParentNode", 3),
+    ("PruneTaxaLabels", 2), ("RetainTaxaLabels", 2), ("ExtractWithLabels", 1), ("ExtractWithoutLabels", 1),
+]
+
+# histories over a label pool with collisions: mostly the label-based selectors, a few structural ops in between
+# (no Reorder: it sorts by label and the model ranks the default labels)
+LABEL_KINDS = [
+    ("PruneTaxaLabels", 8), ("RetainTaxaLabels", 8), ("ExtractWithLabels", 5), ("ExtractWithoutLabels", 5),
+    ("PruneTaxa", 1), ("RetainTaxa", 1), ("ReseedAt", 2), ("SuppressUnifurcations", 1), ("NewChild", 3),
+    ("PruneSubtree", 1), ("Ladderize", 1), ("Encode", 1), ("ShuffleTaxa", 1), ("RemoveChild", 1),
 ]
 
 
@@ -482,6 +608,12 @@ def gen_op(rng, sess, spec, kinds=KINDS, allow_leaf_reseed=False):
     if k == "RetainTaxa":
         taxa = [x for x in range(ntaxa) if rng.random() < 0.7]
         return [k, taxa, ub, su]
+    if k == "PruneTaxaLabels":
+        return [k, gen_label_query(rng, sess, spec), ub, su, rng.random() < 0.9, rng.random() < 0.2]
+    if k == "RetainTaxaLabels":
+        return [k, gen_label_query(rng, sess, spec), ub, su]
+    if k in ("ExtractWithLabels", "ExtractWithoutLabels"):
+        return [k, gen_label_query(rng, sess, spec), su]
     if k in ("Ladderize", "Reorder"):
         return [k, B(rng)]
     if k == "RandomlyRotate":
@@ -550,9 +682,9 @@ def note_detached(sess, op, err, before, after):
             sess.detached.append(gone)
 
 
-def gen_history(rng, spec, rooted, ntaxa, nops, kinds=KINDS, allow_leaf_reseed=False):
+def gen_history(rng, spec, rooted, ntaxa, nops, kinds=KINDS, allow_leaf_reseed=False, labels=None, cs=None):
     """runs the real library to draw arguments from the live state; returns the concrete op list"""
-    sess = Session(spec, rooted, ntaxa)
+    sess = Session(spec, rooted, ntaxa, labels=labels, cs=cs)
     ops = []
     cur = spec
     try:
@@ -581,7 +713,10 @@ def gen_history(rng, spec, rooted, ntaxa, nops, kinds=KINDS, allow_leaf_reseed=F
             cur = snap["tree"]
     finally:
         sess.close()
-    return {"init": spec, "rooted": rooted, "ntaxa": ntaxa, "ops": ops}
+    case = {"init": spec, "rooted": rooted, "ntaxa": ntaxa, "ops": ops}
+    if labels is not None:
+        case["labels"], case["cs"] = list(labels), bool(cs)
+    return case
 
 
 # --------------------------------------------------------------------------------------------
@@ -589,7 +724,7 @@ def gen_history(rng, spec, rooted, ntaxa, nops, kinds=KINDS, allow_leaf_reseed=F
 # --------------------------------------------------------------------------------------------
 
 def observe(case):
-    sess = Session(case["init"], case["rooted"], case["ntaxa"])
+    sess = Session(case["init"], case["rooted"], case["ntaxa"], labels=case.get("labels"), cs=case.get("cs"))
     out = []
     try:
         for op in case["ops"]:
@@ -631,7 +766,8 @@ def observe(case):
 # position of the update_bipartitions flag in the op forms
 UB_POS = {"SuppressUnifurcations": 1, "ReseedAt": 2, "ToOutgroup": 2, "RerootAtNode": 2, "RerootAtEdge": 4, "RerootAtMidpoint": 1,
           "CollapseUnweighted": 2, "ResolvePolytomies": 3, "PruneSubtree": 2, "FilterLeafNodes": 3,
-          "PruneLeavesWithoutTaxa": 2, "PruneNodes": 3, "PruneTaxa": 2, "RetainTaxa": 2, "RandomlyReorient": 2}
+          "PruneLeavesWithoutTaxa": 2, "PruneNodes": 3, "PruneTaxa": 2, "RetainTaxa": 2, "RandomlyReorient": 2,
+          "PruneTaxaLabels": 2, "RetainTaxaLabels": 2}
 
 
 # --------------------------------------------------------------------------------------------
@@ -673,6 +809,15 @@ def documented(op, err, before):
     if k == "RandomlyReorient" and err == "AssertErr":
         return len(by) == 1                                  # to_outgroup_position on the only node
     return False
+
+
+def documented_extract(op, err, before, labels, cs):
+    """extract_subtree raises SeedNodeDeletionException / a bare ValueError (explicit raises) when no leaf of the
+    source passes the filter"""
+    des = set(designated(labels, cs, op[1]))
+    keep = [n for n in trees.leaves(before)
+            if n["taxon"] is None or ((n["taxon"] in des) == (op[0] == "ExtractWithLabels"))]
+    return err in ("OtherErr", "ValueErr") and not keep
 
 
 def expected_leaf_taxa(op, before):
@@ -785,11 +930,45 @@ def final_key(key):
     return LEGACY_KEYS[key] if LEGACY_KEYS[key] in known else key
 
 
+def oracle_extract(op, snap, before, labels, cs, where):
+    """extract_tree_with(out)_taxa_labels: self untouched (checked by the caller through the leaf-taxa clause and
+    the model), the NEW tree well formed, in the same namespace, and its leaf taxa are exactly the leaf taxa of
+    self that the labels designate (with) / do not designate (without)"""
+    ex = (snap.get("aux") or {}).get("extract")
+    name = op[0]
+    if snap["err"] is not None or ex is None:
+        return None
+    if ex.get("is_self") or not ex.get("same_namespace"):
+        return ("%s the extracted tree %s" % (where, "is the tree itself" if ex.get("is_self") else
+                                              "is not in the namespace of the source tree"), "extract-namespace:" + name)
+    if ex.get("tree", 0) is None:
+        return ("%s the extracted tree has no seed node" % where, "extract-no-seed:" + name)
+    if ex["problems"]:
+        return ("%s the extracted tree is not a well-formed arborescence: %s" % (where, "; ".join(ex["problems"][:3])),
+                "ill-formed-extract:" + name)
+    if ex.get("foreign_taxa"):
+        return ("%s the extracted tree carries taxa that are not in the namespace" % where, "extract-foreign-taxa:" + name)
+    if internal_with_taxon(before) or ex.get("internal_taxon"):
+        return None
+    des = set(designated(labels, cs, op[1]))
+    cur = leaf_taxa(before)
+    want = [x for x in cur if (x in des) == (name == "ExtractWithLabels")]
+    if sorted(ex["leaf_taxa"]) != sorted(want):
+        return ("%s leaf taxa of the extracted tree are %s; the labels %s designate taxa %s (labels of the namespace: %s, "
+                "case sensitive: %s), so it should have %s" % (where, sorted(ex["leaf_taxa"]), op[1], sorted(des),
+                                                                labels, cs, sorted(want)), "leaf-taxa:" + name)
+    return None
+
+
 def oracle_steps(case, obs, probe_key=None):
     before = case["init"]
+    labels, cs = case_labels(case)
     for step, (op, snap) in enumerate(zip(case["ops"], obs)):
         name = op[0]
-        where = "after step %d %s" % (step, json.dumps(op)[:160])
+        lop = op
+        op = equiv_op(op, labels, cs)      # label-based selectors are judged as the taxon-based op on the designated taxa
+        ename = op[0]
+        where = "after step %d %s" % (step, json.dumps(lop)[:160])
         key = probe_key or name
         if (snap["problems"] or snap["err"] == "ValueErr") and not probe_key:
             oc = outgroup_class(op, snap, before)
@@ -822,8 +1001,9 @@ def oracle_steps(case, obs, probe_key=None):
         err = snap["err"]
         if err == "Hang":
             return ("%s the call did not return within 10 s" % where, "hang:" + key)
-        if err is not None and not documented(op, err, before):
-            if err == "AttrErr" and name in ("PruneTaxa", "RetainTaxa", "PruneLeavesWithoutTaxa", "PruneNodes") \
+        if err is not None and not (documented_extract(lop, err, before, labels, cs) if name.startswith("Extract")
+                                    else documented(op, err, before)):
+            if err == "AttrErr" and ename in ("PruneTaxa", "RetainTaxa", "PruneLeavesWithoutTaxa", "PruneNodes") \
                     and "remove_child" in (snap["aux"].get("msg") or ""):
                 return ("%s raised AttributeError ('NoneType' object has no attribute 'remove_child') because the "
                         "node to prune is the seed (every leaf pruned, or the seed's own taxon selected), instead of "
@@ -834,18 +1014,26 @@ def oracle_steps(case, obs, probe_key=None):
         # leaf taxa multiset
         tainted = internal_with_taxon(before) or internal_with_taxon(after)
         exp = expected_leaf_taxa(op, before)
+        if name in ("ExtractWithLabels", "ExtractWithoutLabels"):
+            v = oracle_extract(lop, snap, before, labels, cs, where)
+            if v:
+                return v
         leafreseed = name in ("ReseedAt", "RerootAtNode") and not next(
             n for n in trees.preorder(before) if n["id"] == op[1])["kids"]
         if exp is not None and not tainted and not leafreseed:
             got = leaf_taxa(after)
             ok = (got == sorted(exp)) if err is None else (all(got.count(x) <= leaf_taxa(before).count(x) for x in got))
             if not ok:
-                return ("%s leaf taxa are %s, the operation was asked to leave %s" % (where, got, sorted(exp)),
+                extra = ""
+                if name in LABEL_OPS:
+                    extra = " (labels %s designate taxa %s; labels of the namespace: %s, case sensitive: %s)" % (
+                        lop[1], op[1], labels, cs)
+                return ("%s leaf taxa are %s, the operation was asked to leave %s%s" % (where, got, sorted(exp), extra),
                         "leaf-taxa:" + key)
         if name == "ShuffleTaxa" and err is None and leaf_taxa(after) != leaf_taxa(before) and not op[1]:
             return ("%s shuffle_taxa changed the multiset of leaf taxa" % where, "leaf-taxa:" + key)
         if snap.get("bip"):
-            if name == "PruneNodes" and not op[2]:
+            if ename == "PruneNodes" and not op[2]:
                 return ("%s prune_nodes(prune_leaves_without_taxa=False) ignores update_bipartitions=True: %s"
                         % (where, snap["bip"]), "prune_nodes-ignores-update_bipartitions:%s-stale-masks" % outcome_tag(snap))
             return ("%s update_bipartitions=True: %s" % (where, snap["bip"]), "bipartitions-stale:" + key)
@@ -1020,9 +1208,14 @@ def zflat(l):
 
 def c_case(case, obs):
     steps = []
+    labels, cs = case_labels(case)
     for op, snap in zip(case["ops"], obs):
         if snap["tree"] is None or snap["problems"]:
             break                 # ill-formed states are the oracle's business; the model stops here
+        if op[0] in ("ExtractWithLabels", "ExtractWithoutLabels"):
+            continue              # builds a new tree, self is not touched (the next step's dump shows it): oracle only
+        # label-based selectors: the model runs the taxon-based op on the taxa the labels designate
+        op = equiv_op(op, labels, cs)
         enc = snap.get("enc")
         c_enc = "None" if enc is None else "(Some [%s])" % ";".join("(%d,%d)" % (a, b) if a >= 0 else "((%d),%d)" % (a, b)
                                                                     for a, b in enc)
@@ -1047,7 +1240,7 @@ def to_coq(case, obs):
 # case generators
 # --------------------------------------------------------------------------------------------
 
-def random_case(rng, max_leaves, max_ops):
+def random_case(rng, max_leaves, max_ops, label_pool=None):
     n = rng.randint(1, max_leaves) if rng.random() < 0.9 else rng.randint(1, 3)
     lengths = rng.choice(["dyadic", "dyadic", "int", "mixed", "none", "positive", "unit"])
     spec = trees.gen_tree(rng, n, lengths=lengths, unifurcations=rng.choice([0.0, 0.0, 0.15]),
@@ -1061,6 +1254,14 @@ def random_case(rng, max_leaves, max_ops):
         spec["len"] = None
     rooted = rng.choice([None, True, False])
     ntaxa = n + rng.randint(0, 2)
+    if label_pool is None:
+        label_pool = rng.random() < 0.12
+    if label_pool:
+        # a namespace in which several taxa answer to one label (duplicates, labels differing only in case, with the
+        # namespace case sensitive or not): histories of mostly label-based selectors
+        labels, cs = gen_label_pool(rng, ntaxa)
+        return gen_history(rng, spec, rooted, ntaxa, rng.randint(1, min(max_ops, 6)), kinds=LABEL_KINDS,
+                           labels=labels, cs=cs)
     # reseed_at / reroot_at_node at a LEAF is outside the documented domain (F19) but must still leave a
     # well-formed tree: exercised in a third of the histories
     return gen_history(rng, spec, rooted, ntaxa, rng.randint(1, max_ops), allow_leaf_reseed=rng.random() < 0.33)
@@ -1185,7 +1386,7 @@ def search(ctx, budget_s):
     rng = random.Random(ctx.seed + 77)
     n = 0
     while time.time() - t0 < budget_s and n < 20000:
-        case = random_case(rng, 12, 12)
+        case = random_case(rng, 12, 12, label_pool=(n % 3 == 1) or None)
         obs = observe(case)
         v = oracle(case, obs)
         n += 1
@@ -1253,6 +1454,10 @@ def run(tier, seed, replay=None):
                            "depth-2 histories from every shape <=3 leaves; thorough: 4000+500 random histories, "
                            "every depth-2 history over the per-state op alphabet from every shape <=4 leaves, depth 2 with "
                            "sampled alphabets (9 per state) for 5 leaves and depth 3 (11 per state) on <=3 leaves; a third of "
-                           "the random histories also re-seed at leaves (F19); pointer dump, rooting flag and exception class "
+                           "the random histories also re-seed at leaves (F19); about 12% of the random histories run over a "
+                           "label pool with collisions (duplicate labels, labels differing only in case, namespace case "
+                           "sensitive or not) and use the label-based selectors prune/retain_taxa_with_labels, "
+                           "extract_tree_with(out)_taxa_labels (oracle: leaf taxa change exactly by ALL taxa the labels "
+                           "designate under the namespace's rule; model: the taxon-based op on those taxa); pointer dump, rooting flag and exception class "
                            "compared with the model after every step; non-trivial = >=2 executed ops on a tree with >=4 nodes; "
                            "distinct by full case content")
